@@ -60,6 +60,7 @@ func cmdCheck(args []string) int {
 	repo := fs.String("repo", "/repo", "repository directory")
 	verif := fs.String("verif", "/verif", "verification directory")
 	noSelf := fs.Bool("no-selftest", false, "skip mutation self-tests in thorough tier")
+	patch := fs.String("patch", "", "analyse the tree with this unified diff applied in memory (overlay; /repo is not modified; evidence goes to a scratch directory)")
 	fs.Parse(args)
 	if t := os.Getenv("VERIF_TIER"); t != "" && !isFlagSet(fs, "tier") {
 		*tier = t
@@ -79,6 +80,22 @@ func cmdCheck(args []string) int {
 			fmt.Fprintf(os.Stderr, "unknown property %q\n", id)
 			return 2
 		}
+	}
+	var overlay map[string][]byte
+	if *patch != "" {
+		diff, err := os.ReadFile(*patch)
+		if err != nil {
+			fmt.Fprintln(os.Stderr, err)
+			return 2
+		}
+		overlay, err = eng.ApplyUnifiedDiff(*repo, diff)
+		if err != nil {
+			fmt.Fprintln(os.Stderr, "patch does not apply:", err)
+			return 2
+		}
+		eng.WriteRoot, _ = os.MkdirTemp("", "verif-patch-")
+		defer os.RemoveAll(eng.WriteRoot)
+		*noSelf = true
 	}
 	exit := 0
 	// Group: one load per configuration for all requested properties.
@@ -114,7 +131,7 @@ func cmdCheck(args []string) int {
 		if whole {
 			cfgName += "/whole-module"
 		}
-		prog, err := eng.Load(eng.LoadOptions{Dir: *repo, Patterns: patterns, GOOS: goos})
+		prog, err := eng.Load(eng.LoadOptions{Dir: *repo, Patterns: patterns, GOOS: goos, Overlay: overlay})
 		if err != nil {
 			for _, id := range sel {
 				outcomes[id].Problems = append(outcomes[id].Problems, fmt.Sprintf("[%s] %v", cfgName, err))
